@@ -103,9 +103,24 @@ def predOfJ : J → Option (Pop → Bool)
   | .arr [.str "never"] => some (fun _ => false)
   | _ => none
 
+/-- `where` filters of the harness family. -/
+partial def whereOfJ : J → Option Where
+  | .arr [.str "any"] => some (fun _ => true)
+  | .arr [.str "kinds", .arr ks] => do
+      let ks ← ks.mapM J.asNat?
+      pure (fun n => ks.contains n.kind)
+  | .arr [.str "valueLt", .int v] => some (fun n => decide (n.value < v.toNat))
+  | .arr [.str "valueEq", .int v] => some (fun n => n.value == v.toNat)
+  | .arr [.str "indexEq", .int v] => some (fun n => n.index == v.toNat)
+  | .arr [.str "not", f] => do let f ← whereOfJ f; pure (fun n => !f n)
+  | .arr [.str "and", f, g] => do let f ← whereOfJ f; let g ← whereOfJ g; pure (fun n => f n && g n)
+  | _ => none
+
 def primOfJ (g : GSpec) (fuel : Nat) : List J → Option Op
   | [.str "mutUniform"] => some (mutUniform fuel g)
   | [.str "mutSwap"] => some (mutSwap g)
+  | [.str "mutUniform", f] => do pure (mutUniformW (← whereOfJ f) fuel g)
+  | [.str "mutSwap", f] => do pure (mutSwapW (← whereOfJ f) g)
   | [.str "selRandom", n, .bool r] => do pure (selRandom (← nspecOfJ n) r)
   | [.str "selSample", n] => do pure (selSample (← nspecOfJ n))
   | [.str "selProportional", n, .arr ws] => do
